@@ -56,6 +56,52 @@ func mentionsZZ(c Call) bool {
 	return false
 }
 
+func posName(i, n int) string {
+	switch {
+	case n == 1:
+		return "only"
+	case i == 0:
+		return "first"
+	case i == n-1:
+		return "last"
+	}
+	return "middle"
+}
+
+// zzPosition says where the dangling name sits in the list it belongs to: among the name
+// arguments of its call (Security, Required, ...) or, for one-name calls, among the sibling
+// calls of the same list (headers, view attributes, ...).
+func zzPosition(calls []Call) string {
+	for i, c := range calls {
+		direct, nstr := -1, 0
+		for _, a := range c.Args {
+			if a.K == "s" || a.K == "scheme" {
+				if a.K == "s" && strings.Contains(a.S, zz) {
+					direct = nstr
+				}
+				nstr++
+			}
+		}
+		if direct >= 0 {
+			if nstr > 1 {
+				return posName(direct, nstr) + "-argument"
+			}
+			return posName(i, len(calls)) + "-entry"
+		}
+		for _, a := range c.Args {
+			if r := zzPosition(a.Body); r != "" {
+				return r
+			}
+			if a.Call != nil {
+				if r := zzPosition([]Call{*a.Call}); r != "" {
+					return r
+				}
+			}
+		}
+	}
+	return ""
+}
+
 // minimise greedily removes enumerated calls while same(outcome) still holds; the result is
 // 1-minimal (no single call can be removed). keep protects calls that must stay.
 func minimise(p *Program, out *Outcome, same func(*Outcome) bool, keep func(Call) bool) (*Program, *Outcome) {
@@ -218,8 +264,9 @@ func judge(p *Program, out *Outcome) []Viol {
 		sig := fmt.Sprintf("bad-error defect=%s calls=%s ctx=%s", kind, describe(q.enumerated()), o.HoleType)
 		what := fmt.Sprintf("rejected, but %s; program: %s", o.Bad, q.Source())
 		return []Viol{{Sig: sig, What: what, Prog: p, Min: q, Src: q.Source()}}
-	case out.Class == "accepted" && p.Dangling != "" && out.HasZZ:
-		same := func(o *Outcome) bool { return o.Class == "accepted" && o.HasZZ }
+	case out.Class == "accepted" && p.Dangling != "" && (out.HasZZ || p.Strict):
+		strict := p.Strict
+		same := func(o *Outcome) bool { return o.Class == "accepted" && (o.HasZZ || strict) }
 		q, _ := minimise(p, out, same, mentionsZZ)
 		var comp []Call
 		var ref []Call
@@ -234,8 +281,12 @@ func judge(p *Program, out *Outcome) []Viol {
 		if len(comp) > 0 {
 			with = describe(comp)
 		}
-		sig := fmt.Sprintf("dangling-accepted ref=%s call=%s ctx=%s with=%s", p.Dangling, describe(ref), q.Ctx, with)
-		what := fmt.Sprintf("design accepted although it refers to %q (%s) which the program never defines; program: %s", zz, p.Dangling, q.Source())
+		sig := fmt.Sprintf("dangling-accepted ref=%s call=%s pos=%s ctx=%s with=%s", p.Dangling, describe(ref), zzPosition(q.enumerated()), q.Ctx, with)
+		kept := "the accepted design still mentions the name"
+		if !out.HasZZ {
+			kept = "the reference was silently dropped from the accepted design"
+		}
+		what := fmt.Sprintf("design accepted although it refers to %q (%s) which the program never defines (%s); program: %s", zz, p.Dangling, kept, q.Source())
 		return []Viol{{Sig: sig, What: what, Prog: p, Min: q, Src: q.Source()}}
 	}
 	return nil
